@@ -98,8 +98,38 @@ def template_of(rsmi, kind):
     return its if kind == "its" else get_rc(its)
 
 
+RUN_TIMEOUT_S = [30]   # generous wall-clock watchdog per reactor execution; firing = inconclusive run, never a verdict
+
+
+class RunTimeout(BaseException):
+    """BaseException on purpose: broad `except Exception` blocks inside the code under test must not swallow it."""
+
+
+def _alarm(signum, frame):
+    raise RunTimeout()
+
+
 def run(substrate, tpl, invert, strategy="all", flags=None, automorphism=False, want_its=False):
     """one reactor execution; returns dict(smarts, std, n_raw, n_pruned, its) or dict(error=...)."""
+    import signal
+    import threading
+
+    use_alarm = threading.current_thread() is threading.main_thread()
+    if use_alarm:
+        old = signal.signal(signal.SIGALRM, _alarm)
+        signal.setitimer(signal.ITIMER_REAL, RUN_TIMEOUT_S[0])
+    try:
+        return _run(substrate, tpl, invert, strategy, flags, automorphism, want_its)
+    except RunTimeout:
+        STATS["timeouts"] = STATS.get("timeouts", 0) + 1
+        return {"error": "timeout", "timeout": True}
+    finally:
+        if use_alarm:
+            signal.setitimer(signal.ITIMER_REAL, 0)
+            signal.signal(signal.SIGALRM, old)
+
+
+def _run(substrate, tpl, invert, strategy="all", flags=None, automorphism=False, want_its=False):
     from synkit.Synthesis.Reactor.syn_reactor import SynReactor
 
     install()
